@@ -135,7 +135,7 @@ func genCase(rng *core.Rand, k int) *kase {
 		s := rng.Pick(namePool)
 		dup := false
 		for _, n := range c.names {
-			if n.s == s {
+			if strings.EqualFold(n.s, s) {
 				dup = true
 			}
 		}
@@ -437,8 +437,11 @@ func genBig(rng *core.Rand) string {
 		if rng.Chance(1, 60) {
 			s = "*." + strconv.Itoa(rng.Intn(50)) + ".w.test"
 		}
-		if !seen[s] {
-			seen[s] = true
+		// (lower-case names only: in a host matcher with more than 100 entries MatchHost.Provision
+		// lower-cases the exact names in place — also the user's, which phase 1 then reads — and
+		// the case's name table is compared by exact spelling)
+		if !seen[strings.ToLower(s)] {
+			seen[strings.ToLower(s)] = true
 			c.names = append(c.names, nameInfo{s: s})
 		}
 	}
